@@ -285,6 +285,8 @@ pub struct ReqView {
     pub target: String,
     pub version: String,
     pub headers: Vec<(String, String)>,
+    /// header values as sent (one leading blank removed, nothing else)
+    pub raw_values: Vec<(String, String)>,
     pub body: Vec<u8>,
     /// request line had exactly three SP-separated fields and a line end
     pub line_ok: bool,
@@ -295,6 +297,9 @@ pub struct ReqView {
 impl ReqView {
     pub fn header(&self, name: &str) -> Option<&str> {
         self.headers.iter().find(|(n, _)| n.eq_ignore_ascii_case(name)).map(|(_, v)| v.as_str())
+    }
+    pub fn raw_header(&self, name: &str) -> Option<&str> {
+        self.raw_values.iter().find(|(n, _)| n.eq_ignore_ascii_case(name)).map(|(_, v)| v.as_str())
     }
     pub fn path(&self) -> &str {
         let t = self.target.as_str();
@@ -327,6 +332,7 @@ pub fn view_request(b: &[u8]) -> ReqView {
     for l in lines {
         if let Some((n, val)) = l.split_once(':') {
             v.headers.push((n.trim().to_string(), val.trim().to_string()));
+            v.raw_values.push((n.trim().to_string(), val.strip_prefix(' ').unwrap_or(val).to_string()));
         }
     }
     v
